@@ -70,6 +70,17 @@ def configs(tier: str) -> list[dict]:
     else:
         c.append(dict(variant="reuse", T=2, n=6, k=2, n2=3, bound=1))
         c.append(dict(variant="reuse", T=3, n=3, k=1, n2=2, bound=1))
+    # -- other base schedules: eager workers (the consumer only runs when
+    # no worker can); slow partners (a wait with a time-out expires K times
+    # in a row before the thread waited for runs) ------------------------
+    for extra in (dict(workers_first=True), dict(slow=5)):
+        bb = 2 if thorough else 1
+        c.append(dict(variant="full", T=2, n=7, bound=bb, **extra))
+        c.append(dict(variant="full", T=3, n=9, bound=1, **extra))
+        c.append(dict(variant="early", T=2, n=7, k=3, bound=bb, **extra))
+        c.append(dict(variant="fail", T=2, n=7, p=2, bound=bb, **extra))
+        c.append(dict(variant="fail", T=2, n=7, p=6, bound=bb, **extra))
+        c.append(dict(variant="reuse", T=2, n=6, k=2, n2=3, bound=1, **extra))
     # -- line granularity (race detector substitute; stateless) -------
     lb = 2 if thorough else 1
     c.append(dict(variant="full", T=2, n=2, lines=True, bound=lb, cache=False))
@@ -146,7 +157,8 @@ def report(ctx: core.Ctx, results: list[dict], label: str = "") -> None:
             bounded += 1
         name = (f"{label}{cfg['variant']} T={cfg['T']} n={cfg['n']}" +
                 "".join(f" {k}={cfg[k]}" for k in ("k", "p", "n2", "lines",
-                                                    "cache") if k in cfg))
+                                                    "cache", "workers_first",
+                                                    "slow") if k in cfg))
         ctx.part(name,
                  complete=r["complete"],
                  preemption_bound=cfg.get("bound"),
@@ -186,7 +198,9 @@ def report(ctx: core.Ctx, results: list[dict], label: str = "") -> None:
         "configurations expand every reachable state once (state caching "
         "with worker symmetry), 'bounded' ones complete the stated "
         "preemption bound; line-granularity configurations add a scheduling "
-        "point at every source line of the module")
+        "point at every source line of the module; further base schedules "
+        "(eager workers; waits with a time-out expiring K times in a row "
+        "before the partner runs) are explored to the same bound")
     ctx.assumptions[:] = [
         "scheduling points at queue/thread/sleep operations (and at every "
         "line in the line-granularity configurations); CPython GIL makes "
